@@ -67,13 +67,13 @@ def build(repo, vc_files=None, canary=False):
     if canary:
         s = add_canaries(s, info)
     pre = open(os.path.join(ROOT, 'contracts', 'preamble.rs')).read()
-    root = ('\npub mod vs {\n#![allow(unused_imports)]\nuse vstd::prelude::*;\nuse crate::*;\n'
-            '::vstd::prelude::verus! {\n' + info['root'] + '\n} // verus!\n}\n')
+    root = ('\npub mod vs {\n#![allow(unused_imports)]\nuse vstd::prelude::*;\nuse crate::*;\nuse crate::token::*;\nuse crate::operator::*;\nuse crate::tree::*;\nuse crate::value::*;\nuse crate::value::numeric_types::*;\nuse crate::value::value_type::*;\nuse crate::error::*;\nuse crate::context::*;\nuse crate::function::*;\n'
+            + pre + '\n' + impls + '\n::vstd::prelude::verus! {\n' + info['root'] + '\n} // verus!\n}\n')
     anchor = '#![allow(clippy::get_first)]'
     if anchor not in s:
         raise Lost('crate attribute anchor')
-    s = s.replace(anchor, anchor + '\n#![allow(unused_imports, dead_code, unused_variables, unused_mut, unused_braces, unused_parens, non_snake_case)]\nuse vstd::prelude::*;\nuse crate::vs::*;\n', 1)
-    s = s + '\n' + pre + '\n' + impls + '\n' + root
+    s = s.replace(anchor, anchor + '\n#![allow(unused_imports, dead_code, unused_variables, unused_mut, unused_braces, unused_parens, non_snake_case)]\nuse vstd::prelude::*;\npub use crate::vs::*;\n', 1)
+    s = s + '\n' + root
     info['counts'] = counts
     return s, info
 
